@@ -196,7 +196,7 @@ impl Table {
 
         let handle;
         if let Some((last_in_block, h)) = current_key_val(&index_iter) {
-            if self.opt.cmp.cmp(key, &last_in_block) == Ordering::Less {
+            if self.opt.cmp.cmp(key, &last_in_block) != Ordering::Greater {
                 handle = BlockHandle::decode(&h).0;
             } else {
                 return Ok(None);
